@@ -122,7 +122,10 @@ impl<'a> Pr<'a> {
                     self.emit_line(indent, &h);
                     for (ci, c) in cases.iter().enumerate() {
                         let a: Vec<String> = c.args.iter().map(|a| term(self.p, a)).collect();
-                        let h = format!("{}({}) => {{", self.p.rels[c.ctor].name, a.join(", "));
+                        let h = match &c.raw_pattern {
+                            Some(raw) => format!("{} => {{", raw),
+                            None => format!("{}({}) => {{", self.p.rels[c.ctor].name, a.join(", ")),
+                        };
                         self.emit_line(indent + 1, &h);
                         path.push(ci);
                         self.stmts(rule, path, indent + 2, &c.body);
